@@ -31,6 +31,9 @@ class SequenceOrSetPayloadDecoder(object):
     def __call__(self, pyObject, asn1Spec, decodeFun=None, **options):
         asn1Value = asn1Spec.clone()
 
+        # an empty mapping is a value (no optional members), not a schema
+        asn1Value.clear()
+
         componentsTypes = asn1Spec.componentType
 
         for field in asn1Value:
